@@ -866,22 +866,26 @@ fn run_pair(r: &mut Report, args: &Args, pair: &Pair, rng: &mut Rng) {
                     }
                     _ => sig.clone(),
                 };
-                // One root cause, many file names: a write that fails while
-                // the rsync tree is being written leaves the tree as it was;
-                // the retry of the update task finds the RRDP state complete
-                // and does not write the tree again, so it stays behind the
-                // snapshot until the next publication.
-                let rsync_stage = realisation == "eio"
-                    && label.starts_with("fs:") && label.contains("/repo/rsync/")
+                // One root cause, many file names: the publication server's
+                // content log advances BEFORE the RRDP files and the rsync
+                // tree are written. A crash or failing write in that stage
+                // leaves the files as they were; the task is run again, finds
+                // nothing staged and does not write them again, so what is
+                // served stays behind the accepted content until the next
+                // publication.
+                let rsync_stage = label.starts_with("fs:")
+                    && (label.contains("/repo/rsync/")
+                        || label.contains("/repo/rrdp/"))
                     && sig.starts_with("state-diverges")
-                    && detail.contains("/rsync_tree/");
+                    && (detail.contains("/rsync_tree/")
+                        || detail.contains("/rrdp_snapshot/"));
                 let sig = if rsync_stage {
-                    "rsync-tree-stale-after-failed-rsync-write".to_string()
+                    "served-files-stale-after-interrupted-write".to_string()
                 } else { sig };
                 let label = if sig.starts_with("listener-state-ahead") {
                     "window".to_string()
                 } else if rsync_stage {
-                    "rsync-stage".to_string()
+                    "files-stage".to_string()
                 } else { label.clone() };
                 r.violation(
                     &format!("{sig}@{realisation}:{label}"),
